@@ -114,7 +114,7 @@ def run(ctx):
         ctx.count("mode", f"{sc.flag}/{'so' if sc.shared else 'exe'}/t{sc.threads}")
         ctx.count("tmpseed", str(sc.tmpseed))
         ol = C.obs_line(o)
-        if sc.prior == "ro" and PROTECTED_HARDLINKS and "trace=link:err," in ol:
+        if sc.prior == "ro" and not sc.tmpseed and PROTECTED_HARDLINKS and "trace=link:err," in ol:
             # fs.protected_hardlinks=1: the kernel refuses link(2) on a file the caller neither owns nor can write (the prior output
             # belongs to root, the link runs as nobody). The model's file system has no such policy knob; the step is optional in
             # the protocol (its failure is ignored by the code) and the rest of the trace and the final state are still compared.
